@@ -8,6 +8,7 @@ def run(ctx):
         (1, lambda r: C.gen_mixed(r, C.W_GROUP, nblocks=r.randrange(4, 10), p_group=0.5)),
         (1, C.gen_timeout),
         (1, C.gen_shared_expiry),
+        (4, C.gen_shared_group_expiry),
     ]
     return C.run_check(ctx, "C05", gens, 100, 6000, router_n=30 if ctx.quick else 1000)
 
